@@ -342,6 +342,12 @@ def _s4_case(rep, f, outs, mp, has_m, has_s, has_r, has_so, sub_case, A, m, sc, 
         rep.fail("C08.S4", f"{f.qualname}[{case}]", f.loc, found=f"{len(hit)} outcomes", required="exactly one instruction", what="target-shape cases are not a partition", detail=f"partition:{case}")
         return
     ins = _instr(hit[0].value)
+    hv_ = hit[0].value
+    while hv_ is not None and hv_[0] == "var" and len(hv_) == 4:
+        hv_ = hv_[3]
+    if ins is None and hv_ is not None and hv_[0] == "call" and "CircuitInstruction" not in show(hv_[1]):
+        # the instruction is assembled by another function this one hands its object to (a factory's helper): not read here
+        raise AnalysisError(f"{f.qualname}: the instruction is built by {show(hv_[1])[:80]}, which this rule does not follow; not read")
     if ins is None:
         rep.fail("C08.S4", f"{f.qualname}[{case}]", f.loc, found=show(hit[0].value), required="a stim.CircuitInstruction", what="no instruction produced", detail=f"shape:{case}")
         return
